@@ -49,6 +49,16 @@ CLAIMED = {
             'IEEE-754 conversion of struct e/f/d is an uninterpreted injection with unpack(pack(v)) == v; struct byte-slice rewrite rules '
             '(pack(unpack(bytes)) == bytes, recomposition of consecutive slices) are part of the trusted struct model. A1-A10; z3/cvc5.',
             'contract-based deductive verification (pyvc VC generation from /repo AST + z3/cvc5)', 'DESIGN.md section 4 C19'),
+    'C08': ('proof', 'Pairing logic of the real ModbusTransactionManager.execute for all four client framings (plus the UDP-style client): from any prior state '
+            '(stale bytes in the framer, client state, transaction-id counter including the wrap, a reply slot left over from an earlier call) and a havoc-ed '
+            'transport, the returned object is a ModbusIOException or a message the framer delivered during this call, handed over with an empty framer buffer, '
+            'carrying the request transaction id (TCP) / unit id (serial) and function code. The retry loop is cut (any number of retries); _transact and the '
+            'framer are replaced by contracts that are themselves established on the real code by C08/transact.<kind> (frame conditions of _transact) and '
+            'C08/filter.<kind> (every delivered message carries the wire unit id, passed the unit filter, and on TCP the wire transaction id; receive loops cut). '
+            'Five known findings (reply transaction id never compared, function code never compared, unit 0/255 accepts any unit, socket error path, left-over reply slot).',
+            'Transport abstracted (recv(n) returns any bytes of length <= n, may raise). Decoder abstracted (a non-empty PDU yields a message whose function code is its '
+            'first byte; which PDUs decode is C01/C02). Number of deliveries per processIncomingPacket call split 0/1/2/1-then-raise at the call site (the client callback '
+            'stores under one key). A1-A10; z3/cvc5.', 'contract-based deductive verification (pyvc VC generation from /repo AST + z3/cvc5)', 'DESIGN.md section 4 C08'),
     'C09': ('proof', 'Each of the seven execute/send pairs (sync TCP/serial/UDP, asyncio TCP/UDP, Twisted TCP/UDP) is proved against S-SERVE for an arbitrary '
             'request (ids, function code, outcome of request.execute: normal / exception / raises), arbitrary hosted-unit sets, single/multi mode, '
             'broadcast and ignore_missing_slaves flags: exactly one frame per accepted request, byte-identical to MBAP(tid, uid, fc or fc|0x80, payload) with '
